@@ -320,6 +320,14 @@ def gen_case(tape, tier):
         case["learner_crash"] = 3 + tape.choose(40, "crash-at")
     elif tape.coin(0.2, "earlier-session"):
         case["earlier_session"] = True  # the same process drove learners on this folder before, with other inputs
+    mapped = [fd for fd in w["functions"] if fd.get("mapspec")]
+    if "learner_crash" not in case and not case["pickle_learners"] and mapped and tape.coin(0.3, "memory-storage"):
+        # some (or all) mapped outputs are kept in the process's memory; learners and final run then share one process
+        if tape.coin(0.3, "all-memory"):
+            case["config"]["storage"] = "dict"
+        else:
+            some = [fd for fd in mapped if tape.coin(0.5, "in-memory")] or mapped[:1]
+            case["config"]["storage"] = dict({",".join(fd["outputs"]): "dict" for fd in some}, **{"": "file_array"})
     return case
 
 
@@ -462,7 +470,7 @@ def run_case(case, exec_seed=None, exec_tape=None):
         folder = os.path.join(root, "run")
 
         def process(fn, preempt=0.0):
-            sim = C.new_sim(tape, root, preempt=preempt)
+            sim = C.new_sim(tape, root, preempt=preempt, step_cap=C.step_cap_for(w))
             box = {}
 
             def main():
@@ -758,6 +766,13 @@ def _run_learners(case, w, ref, folder, process, V, probes, tape):
     from pipefunc.map.adaptive import create_learners
 
     seen = collections.Counter()
+    st = case["config"]["storage"]
+    storage = C.storage_arg(st)
+    # functions whose mapped outputs live in this process's memory only: the learners of later functions read them there,
+    # and a later run in the same process may compute them again (nothing on disk says they were done)
+    mem_fns = {fd["name"] for fd in w["functions"]
+               if fd.get("mapspec") and any(C.storage_of(st, w, o) != "file_array" for o in fd["outputs"])}
+    split_at = {}
 
     def go(sim, cleanup=True, crash_at=None):
         if case.get("earlier_session") and cleanup:
@@ -773,7 +788,7 @@ def _run_learners(case, w, ref, folder, process, V, probes, tape):
             sim.fs.crash_at = sim.fs.n + crash_at  # the process running the learners dies before that file-system event
         p = build_pipeline(w)
         ld = create_learners(p, build_inputs(w), folder, internal_shapes=map_kwargs(w).get("internal_shapes"),
-                             storage=case["config"]["storage"], return_output=case["return_output"], cleanup=cleanup,
+                             storage=storage, return_output=case["return_output"], cleanup=cleanup,
                              fixed_indices=_fx(case["fixed"]) if case["fixed"] else None,
                              split_independent_axes=case["split"])
         # per key: generations in order; across keys and inside a generation: any interleaving, point by point
@@ -818,7 +833,7 @@ def _run_learners(case, w, ref, folder, process, V, probes, tape):
 
             p0 = build_pipeline(w)
             ld0 = cl(p0, c05._variant_inputs(w, build_inputs(w)), folder, internal_shapes=map_kwargs(w).get("internal_shapes"),
-                     storage=case["config"]["storage"], cleanup=True)
+                     storage=storage, cleanup=True)
             for gens in ld0.values():
                 for gen in gens:
                     for lp in gen:
@@ -826,6 +841,12 @@ def _run_learners(case, w, ref, folder, process, V, probes, tape):
                             pts, _ = lp.learner.ask(1)
                             for pt in pts:
                                 lp.learner.tell(pt, lp.learner.function(pt))
+
+    def final(sim):
+        p = build_pipeline(w)
+        res = p.map(build_inputs(w), run_folder=folder, parallel=False, storage=storage, cleanup=False,
+                    **map_kwargs(w))
+        return {o: canon(res[o].output) for o in all_outputs(w)}
 
     if case.get("learner_crash") is not None:
         # the process that drives the learners dies somewhere in the middle; the learners are then created again on the
@@ -837,8 +858,24 @@ def _run_learners(case, w, ref, folder, process, V, probes, tape):
             nkeys, err, sim = process(lambda s: go(s, cleanup=False))
         else:
             nkeys, sim = _n, sim0  # the crash point lay beyond the end: an ordinary complete run
+    elif mem_fns:
+        probes["learners_with_memory_storage"] = 1
+
+        def go_then_final(sim):
+            n = go(sim)
+            split_at["n"] = len(sim.calls)
+            try:
+                split_at["R"] = final(sim)
+            except Exception as e:  # noqa: BLE001
+                split_at["err"] = e
+            return n
+
+        nkeys, err, sim = process(go_then_final)
     else:
         nkeys, err, sim = process(go)
+    final_calls = sim.calls[split_at["n"]:] if "n" in split_at else None
+    if final_calls is not None:
+        del sim.calls[split_at["n"]:]
     if err is not None:
         V("learners", f"learners-raised:{type(err).__name__}", {"exc": repr(err)[:300]}, {"frame": _frame(err)})
         return
@@ -859,20 +896,19 @@ def _run_learners(case, w, ref, folder, process, V, probes, tape):
         V("learners", "learners-did-not-compute-everything", {"missing": repr(missing)[:400]})
         return
 
-    def final(sim):
-        p = build_pipeline(w)
-        res = p.map(build_inputs(w), run_folder=folder, parallel=False, storage=case["config"]["storage"], cleanup=False,
-                    **map_kwargs(w))
-        return {o: canon(res[o].output) for o in all_outputs(w)}
-
-    R, err, sim2 = process(final)
+    if final_calls is not None:
+        R, err = split_at.get("R"), split_at.get("err")
+        final_calls = redone = [c for c in final_calls if c.fn not in mem_fns]
+    else:
+        R, err, sim2 = process(final)
+        final_calls = redone = sim2.calls
     if err is not None:
         V("learners", f"final-run-raised:{type(err).__name__}", {"exc": repr(err)[:300]}, {"frame": _frame(err)})
         return
-    if case["fixed"] is None and sim2.calls:
-        V("learners", "final-run-recomputed", {"calls": [repr(c) for c in sim2.calls][:4]})
+    if case["fixed"] is None and redone:
+        V("learners", "final-run-recomputed", {"calls": [repr(c) for c in redone][:4]})
         return
-    for c in sim2.calls:
+    for c in final_calls:
         seen[c.key()] += 1
         if seen[c.key()] > max(1, ref.C0.get(c.key(), 0)):
             V("learners", "element-computed-twice", {"call": repr(c), "where": "final"})
